@@ -723,6 +723,15 @@ class HGibbsRun:
         tape0 = np.random.get_state()
         g = self._build()
         W = sc["W"]
+        # what every sweep produced, observed at the block samplers themselves (the recorded chain is compared with it)
+        produced = []
+        sweep = g.step
+
+        def step(*a, **k):
+            out = sweep(*a, **k)
+            produced.append({b: np.array(np.ravel(np.asarray(smp.current_point, float))) for b, smp in g.samplers.items()})
+            return out
+        g.step = step
         if W:
             g.warmup(W)
         total = 0
@@ -757,6 +766,16 @@ class HGibbsRun:
                 first = int(np.argmax(np.any(got[k] != ref[k], axis=0)))
                 ctx.violate(PROP, "continuity", self._sig(), var=k, first_bad_column=first, W=W)
                 break
+        if len(produced) == W + total:
+            for k in sorted(got):
+                if got[k].shape[1] != W + total:
+                    continue
+                for i_, pr in enumerate(produced):
+                    if k in pr and not np.array_equal(np.ravel(got[k][:, i_]), pr[k], equal_nan=True):
+                        ctx.violate(PROP, "recorded_entry_is_not_the_state_produced", self._sig(), var=k, index=i_)
+                        break
+        else:
+            ctx.undecided("hybrid Gibbs sweeps observed %d, recorded %d" % (len(produced), W + total))
         for js, cps in snaps:
             for k, cp in cps.items():
                 now = _joint_chain(js)[k]
@@ -803,6 +822,18 @@ class LGibbsRun:
         outs = []
         first = True
         for op in self.case["ops"]:
+            if op["op"] == "refused_warmup" and not first and Nb:
+                # a second request for a warm-up phase is refused by the library; the caller catches the error and goes on
+                ctx.fault("refused_call_then_continue")
+                try:
+                    g.sample(int(op["n"]), Nb)
+                    refused = False
+                except ValueError:
+                    refused = True
+                if not refused:
+                    ctx.undecided("second warm-up request was not refused")
+                    return
+                continue
             if op["op"] != "sample":
                 continue
             ctx.log("op", "sample", op["n"])
@@ -845,6 +876,8 @@ def gen_lgibbs_case(r, tier):
     sc["iface"] = "lgibbs"
     sc["Nb"] = r.choice([0, 0, 2, 4])
     ops = [o for o in _compose(r, r.randint(1, 8)) if o["op"] == "sample"]
+    if sc["Nb"] and len(ops) > 1 and r.random() < 0.5:
+        ops.insert(r.randint(1, len(ops) - 1), {"op": "refused_warmup", "n": r.randint(1, 5)})
     return {"scenario": sc, "ops": ops}
 
 
